@@ -770,7 +770,77 @@ func c13GenPod(r *kit.Rand) *corev1.Pod {
 	case 3:
 		setAnno(`{"containers":`)
 	}
+	// a carried summary annotation that is (nearly) the right one for this pod as a batch pod: the
+	// pod was re-created from an exported manifest, or a controller copied the annotations. Only a
+	// bias of the generator: the oracle compares the final annotation with the final spec.
+	if r.Pct(7) {
+		if r.Pct(65) {
+			pod.Labels[c13PCKey] = "koord-batch"
+		}
+		setAnno(c13NearAnnotation(r, pod))
+	}
 	return pod
+}
+
+// c13NearAnnotation predicts the batch summary of the pod's containers (native cpu in milli-cores,
+// memory as is, a limit without request gives the request) and then leaves it as it is or changes
+// exactly one thing: one limit, one request, or one container.
+func c13NearAnnotation(r *kit.Rand, pod *corev1.Pod) string {
+	anno := c13Anno{Containers: map[string]c13AnnoContainer{}}
+	var names []string
+	for i := range pod.Spec.Containers {
+		ct := &pod.Spec.Containers[i]
+		entry := c13AnnoContainer{Limits: map[string]resource.Quantity{}, Requests: map[string]resource.Quantity{}}
+		for li, l := range []corev1.ResourceList{ct.Resources.Requests, ct.Resources.Limits} {
+			dst := entry.Requests
+			if li == 1 {
+				dst = entry.Limits
+			}
+			if q, ok := l[c13BatchCPU]; ok {
+				dst[string(c13BatchCPU)] = q
+			}
+			if q, ok := l[corev1.ResourceCPU]; ok {
+				dst[string(c13BatchCPU)] = c13Q(c13CeilMilli(c13Rat(q)).String())
+			}
+			if q, ok := l[c13BatchMemory]; ok {
+				dst[string(c13BatchMemory)] = q
+			}
+			if q, ok := l[corev1.ResourceMemory]; ok {
+				dst[string(c13BatchMemory)] = q
+			}
+		}
+		for k, v := range entry.Limits {
+			if _, ok := entry.Requests[k]; !ok {
+				entry.Requests[k] = v
+			}
+		}
+		if len(entry.Limits)+len(entry.Requests) > 0 {
+			anno.Containers[ct.Name] = entry
+			names = append(names, ct.Name)
+		}
+	}
+	if len(names) > 0 {
+		name := kit.Pick(r, names)
+		entry := anno.Containers[name]
+		key := string(c13BatchCPU)
+		if r.Bool() {
+			key = string(c13BatchMemory)
+		}
+		switch r.Weighted(15, 55, 15, 15) {
+		case 0: // exactly right
+		case 1: // one limit differs: other value, missing, or stated although the spec has none
+			if _, ok := entry.Limits[key]; ok && r.Pct(25) {
+				delete(entry.Limits, key)
+			} else {
+				entry.Limits[key] = c13Q(kit.Pick(r, []string{"7", "123456", "3Gi"}))
+			}
+		case 2: // one request differs
+			entry.Requests[key] = c13Q(kit.Pick(r, []string{"7", "123456", "3Gi"}))
+		case 3: // one container is missing
+			delete(anno.Containers, name)
+		}
+	}
+	return string(c13JSON(anno))
 }
 
 type c13PC struct {
@@ -1029,7 +1099,7 @@ func TestVerifC13Mutating(t *testing.T) {
 	vh := &validating.PodValidatingHandler{Client: fake.NewClientBuilder().WithScheme(scheme.Scheme).Build(), Decoder: decoder}
 
 	kit.Run(t, kit.Config{Property: "C13", Unit: "mutating", Quick: 5000, Thorough: 400000,
-		Rule: "one pod + profile set per case: QoS label in {absent, LSE, LSR, LS, BE, SYSTEM, junk}, spec.priority nil / class edges +-1 / mid and batch ranges / gaps / extremes, priority-class label (known or junk), 0-3 containers and 0-2 init containers (sidecars) with native and directly written tier quantities from a boundary pool (1m, 0.0005, 500u, 1n, 1.5, 1e3, 1Gi, 1G, 2Ei, ...), request only / both / limit without request, overhead, other resource names, pod-level spec.resources (4%), rarely 4-6 or 12 containers and 3-5 init containers, CPU up to 9e15 and memory up to 1e19, stale or broken summary annotation; 0-6 matching + 0-2 non-matching ClusterColocationProfiles with names that sort unusually (pod and namespace selectors incl. In/NotIn/DoesNotExist; pod in a labelled / unlabelled namespace or with the namespace left empty in the object; fractional probabilities with a reproducible draw stream, labelSuffixes, annotation-key mapping; QoS class, PriorityClass at every class edge, priority-class / QoS labels, label-key mapping, strategic-merge patch, probability 0/100, skip-update-resources) applied in name order; the feature gates ColocationProfileSkipMutatingResources, DisableExtendedResourceSpec and DisableDeviceResourceSpec are each switched on in 8% of the cases and restored. distinct = (final QoS, final class, tier source, #matched, translation outcome, shape of the resources (native / tier / limit-only / overhead / init), annotation state); non-trivial = a pod that is translated and has a native cpu or memory entry, or that already carries tier entries",
+		Rule: "one pod + profile set per case: QoS label in {absent, LSE, LSR, LS, BE, SYSTEM, junk}, spec.priority nil / class edges +-1 / mid and batch ranges / gaps / extremes, priority-class label (known or junk), 0-3 containers and 0-2 init containers (sidecars) with native and directly written tier quantities from a boundary pool (1m, 0.0005, 500u, 1n, 1.5, 1e3, 1Gi, 1G, 2Ei, ...), request only / both / limit without request, overhead, other resource names, pod-level spec.resources (4%), rarely 4-6 or 12 containers and 3-5 init containers, CPU up to 9e15 and memory up to 1e19, stale, broken or nearly right (predicted batch summary with one limit / request / container changed) carried summary annotation; 0-6 matching + 0-2 non-matching ClusterColocationProfiles with names that sort unusually (pod and namespace selectors incl. In/NotIn/DoesNotExist; pod in a labelled / unlabelled namespace or with the namespace left empty in the object; fractional probabilities with a reproducible draw stream, labelSuffixes, annotation-key mapping; QoS class, PriorityClass at every class edge, priority-class / QoS labels, label-key mapping, strategic-merge patch, probability 0/100, skip-update-resources) applied in name order; the feature gates ColocationProfileSkipMutatingResources, DisableExtendedResourceSpec and DisableDeviceResourceSpec are each switched on in 8% of the cases and restored. distinct = (final QoS, final class, tier source, #matched, translation outcome, shape of the resources (native / tier / limit-only / overhead / init), annotation state); non-trivial = a pod that is translated and has a native cpu or memory entry, or that already carries tier entries",
 	}, func(c *kit.Case) {
 		r := c.R
 		if !c13GatesRecorded {
@@ -1327,6 +1397,14 @@ func TestVerifC13Mutating(t *testing.T) {
 			}
 		}
 
+		if _, carried := pod0.Annotations[c13AnnoKey]; carried && translatedTier != "" && !noAnnoGate {
+			c.Count("m_translated_pods_arriving_with_summary_annotation", 1)
+			if pod0.Annotations[c13AnnoKey] == pod1.Annotations[c13AnnoKey] {
+				c.Count("m_translated_pods_carried_annotation_kept", 1)
+			} else {
+				c.Count("m_translated_pods_carried_annotation_rewritten", 1)
+			}
+		}
 		if pod0.Spec.Resources != nil && translatedTier != "" {
 			// the statement talks about containers and the overhead; a native pod-level request is not decided
 			c.Count("m_translated_pods_with_pod_level_resources", 1)
